@@ -366,7 +366,23 @@ def r13_7(ctx):
     q.need(n_s >= 2, 'connection.py: socket-to-Connection sites of listener and client not found')
 
 
+
+def r13_8(ctx):
+    ctx.rule('R13.8', 'close() forgets the handle on every way out of the low-level close, also when that raises: a '
+                      'connection whose descriptor number may already belong to somebody else must report closed', floor=1)
+    m = ctx.model
+    fi = m.func('connection:_ConnectionBase.close')
+    cfg = fi.cfg
+    cl = [n for (n, c) in q.calls(fi, 'self._close')]
+    q.need(cl, '_ConnectionBase.close does not call self._close')
+    forget = [dn for (dn, t, v) in q.assigns(fi, 'self._handle') if v is not None and ast.unparse(v) == 'None']
+    ok, w = cfg.must_pass(cl, [cfg.exit, cfg.raise_exit], forget) if forget else (False, None)
+    ctx.ob('R13.8', 'close:handle-forgotten-on-every-way-out', ok, fi, cl[0],
+           'self._handle = None after self._close() on normal and exceptional exits (try/finally)', path=w)
+
+
 def run(ctx):
+    r13_8(ctx)
     r13_7(ctx)
     r13_1(ctx)
     r13_2(ctx)
@@ -381,6 +397,7 @@ def run(ctx):
 
 _C = 'billiard/connection.py'
 MUTANTS = [
+    ('close-forgets-the-handle-only-on-success', _C, "            try:\n                self._close()\n            finally:\n                self._handle = None\n", "            self._close()\n            self._handle = None\n", 'R13.8'),
     ('header-format-differs', _C, 'size, = struct.unpack("!i", buf.getvalue())', 'size, = struct.unpack("<i", buf.getvalue())', 'R13.1'),
     ('header-read-2', _C, "        buf = self._recv(4)\n        size, = struct.unpack", "        buf = self._recv(2)\n        size, = struct.unpack", 'R13.1'),
     ('payload-before-header', _C, "            self._send(header)\n            self._send(buf)\n", "            self._send(buf)\n            self._send(header)\n", 'R13.1'),
